@@ -70,6 +70,8 @@ type DiffSeams struct {
 	Yield       func(site string) // park points in pool reads and output writes
 	Ctx         context.Context
 	EOFWith     bool // new-build pool readers deliver io.EOF together with the last bytes
+	ZeroReads   int  // every n-th read of the new-build pool returns (0, nil)
+	FailReadAt  int  // the n-th read of the new-build pool fails (the diff is expected to fail)
 	SigViaFile  bool // the old build's signature is read back from a signature file (build-chain workflow)
 	// ZipLikeContainers: both containers list directories the way a container walked from a zip
 	// archive does: in no particular order, and without the directories that are merely implied by
@@ -151,7 +153,7 @@ func Diff(oldDir, newDir string, comp *pwr.CompressionSettings, seams DiffSeams)
 		}
 		targetSig = si.Hashes
 	}
-	sp := &Pool{Inner: fspool.New(sourceContainer, newDir), Name: "srcpool", Slice: seams.SourceSlice, Yield: seams.Yield, EOFWith: seams.EOFWith}
+	sp := &Pool{Inner: fspool.New(sourceContainer, newDir), Name: "srcpool", Slice: seams.SourceSlice, Yield: seams.Yield, EOFWith: seams.EOFWith, ZeroReads: seams.ZeroReads, FailRead: seams.FailReadAt}
 	res.SourcePool = sp
 	pw := &Writer{Name: "patch", Yield: seams.Yield}
 	sw := &Writer{Name: "sig", Yield: seams.Yield}
@@ -247,7 +249,11 @@ func Diff(oldDir, newDir string, comp *pwr.CompressionSettings, seams DiffSeams)
 		res.SecondDiffers = res.Err == nil && res.Panic == "" && !bytes.Equal(first, pw.Bytes())
 	}
 	res.Patch, res.Sig = pw.Bytes(), sw.Bytes()
-	res.Fresh, res.Reused = dctx.FreshBytes, dctx.ReusedBytes
+	if res.Err == nil && res.Panic == "" {
+		// (after a failed or cancelled WritePatch its tasks may still be running and counting -
+		// DESIGN section 6 -: the counts of a diff that failed are nobody's to read)
+		res.Fresh, res.Reused = dctx.FreshBytes, dctx.ReusedBytes
+	}
 	return res
 }
 
